@@ -16,6 +16,7 @@ pub const META: PropMeta = PropMeta {
 
 const OPTS: SampleCheckOpts = SampleCheckOpts { check_sync: false, prefix: "c09" };
 const OPTS_SEG: SampleCheckOpts = SampleCheckOpts { check_sync: false, prefix: "c09seg" };
+const OPTS_CHAIN: SampleCheckOpts = SampleCheckOpts { check_sync: false, prefix: "c09chain" };
 
 pub fn fingerprint(m: &Movie) -> u64 {
     let mut h = Fnv::new();
@@ -88,7 +89,7 @@ pub fn classify(ctx: &mut Ctx, m: &Movie) -> bool {
 /// time mismatch on a track that relies on its own trex default while the last trex differs gets
 /// a signature of its own, so that exactly this input class is attributed to the finding.
 fn tag_multi_trex(m: &Movie, f: Failure) -> Failure {
-    let is_time = ["c09:dur", "c09:start", "c09seg:dur", "c09seg:start"].contains(&f.sig.as_str());
+    let is_time = ["c09:dur", "c09:start", "c09seg:dur", "c09seg:start", "c09chain:dur", "c09chain:start"].contains(&f.sig.as_str());
     if !is_time {
         return f;
     }
@@ -142,7 +143,20 @@ fn oracle_inner(ctx: &mut Ctx, m: &Movie) -> Check {
             t
         })
         .collect();
-    check_samples(&mut sr, m, &shifted, &OPTS_SEG)
+    check_samples(&mut sr, m, &shifted, &OPTS_SEG)?;
+    // (c) the same segment opened against readers that already hold fragments themselves: the
+    // reader of the whole single-stream file, and the segment reader derived in (b) (a chain
+    // init -> segment -> segment). What the parent has read must not leak into the child.
+    for (which, parent) in [("file-reader", &r), ("segment-reader", &sr)] {
+        let seg = built.segment.clone();
+        let mut child = match guarded("read_fragment_header", || parent.read_fragment_header(Cursor::new(seg), seg_len))? {
+            Ok(c) => c,
+            Err(e) => fail!(format!("c09chain:open-failed:{}", crate::engine::normalize_msg(&e.to_string())), "read_fragment_header against a {} failed on a valid media segment: {}", which, e),
+        };
+        check_samples(&mut child, m, &shifted, &OPTS_CHAIN)?;
+    }
+    ctx.count("segment-also-opened-against-readers-holding-fragments");
+    Ok(())
 }
 
 pub fn run(ctx: &mut Ctx) {
